@@ -4,7 +4,7 @@
    `*_before_fix` theorems record what the earlier definitions did (kept in
    Model.v as depth_oldrule / erosion_excl) - they are about the OLD code only. *)
 From Coq Require Import ZArith List Bool Arith Lia.
-From NV.C12 Require Import Model Proofs1 Proofs2 Proofs3 Proofs4.
+From NV.C12 Require Import Model Proofs1 Proofs2 Proofs3 Proofs4 ModelLM Proofs5.
 Import ListNotations.
 
 (* ================================================================== *)
@@ -401,4 +401,47 @@ Example forest_witness :
   ctor 1 [1] = RefuseValue /\
   all_children [0;2;0;2;3] = [[2]; []; [1;3]; [4]; []] /\
   subforest [0;2;0;2;3] [true;true;false;true;true] = Some [0;1;2;2].
+Proof. vm_compute. repeat split; reflexivity. Qed.
+
+(* ------------------------------------------------------------------ *)
+(* Round 6: Field.local_maxima / get_local_maxima (ModelLM.v, Proofs5.v) *)
+
+(* (L1) local_maxima raises (model: None) exactly when no vertex reaches the threshold;
+   otherwise it returns one depth per vertex *)
+Theorem local_maxima_raises_iff_none_above :
+  forall E f th,
+  (local_maxima E f th = None <-> forall i, i < length f -> aboveb th (zat f i) = false) /\
+  (forall d, local_maxima E f th = Some d -> length d = length f).
+Proof. exact Proofs5.local_maxima_raises_iff_none_above. Qed.
+Print Assumptions local_maxima_raises_iff_none_above.
+
+(* (L2) agreement with the direct definition, for every graph (directed / repeated edges
+   allowed), field and threshold: depth[i] = 0 iff i is under the threshold or has a neighbour
+   that reaches the threshold and is strictly higher; i.e. depth > 0 exactly on the local
+   maxima of the thresholded graph.  The loop as written (dilate, mark the vertices that grew
+   with min(k, .), overwrite the never-grown ones with max(k, 1) at the fixed point, at most
+   sf.V passes) is followed pass by pass; no bound on the number of passes is needed. *)
+Theorem local_maxima_zero_iff_higher_neighbour :
+  forall E f th d, local_maxima E f th = Some d ->
+  forall i, i < length f ->
+  (nat_at d i = 0 <->
+   aboveb th (zat f i) = false \/
+   exists j, adjb E i j = true /\ aboveb th (zat f i) = true /\ aboveb th (zat f j) = true /\
+             (zat f i < zat f j)%Z).
+Proof. exact Proofs5.local_maxima_zero_iff. Qed.
+Print Assumptions local_maxima_zero_iff_higher_neighbour.
+
+(* (L3) get_local_maxima lists exactly the vertices of positive depth with their depths *)
+Theorem get_local_maxima_consistent :
+  forall E f th idx dep, get_local_maxima E f th = Some (idx, dep) ->
+  exists d, local_maxima E f th = Some d /\
+    (forall i, In i idx <-> i < length f /\ nat_at d i <> 0) /\ dep = map (nat_at d) idx.
+Proof. exact Proofs5.get_local_maxima_spec. Qed.
+Print Assumptions get_local_maxima_consistent.
+
+(* non-vacuity: a plateau next to a peak (depths 3,0,1,2), a threshold, and the raising case *)
+Example local_maxima_witness :
+  local_maxima [(0,1);(1,0);(1,2);(2,1);(2,3);(3,2)] [3;1;2;2]%Z None = Some [3;0;1;2] /\
+  get_local_maxima [(0,1);(1,0);(1,2);(2,1);(2,3);(3,2)] [3;1;2;2]%Z (Some 2%Z) = Some ([0;2;3], [1;1;1]) /\
+  local_maxima [(0,1);(1,0);(1,2);(2,1)] [0;5;1]%Z (Some 10%Z) = None.
 Proof. vm_compute. repeat split; reflexivity. Qed.
